@@ -53,6 +53,8 @@ type g2lUnit struct {
 	externFue map[string]bool   // extern takes fuel
 	structNames []string        // struct types of the package to emit
 	noEq      map[string]bool   // structs without DecidableEq (function fields)
+	structFields map[string][]string // struct -> the fields to keep (others are dropped; functions touching them are untranslatable)
+	panicCalls map[string]bool  // methods that never return (they panic): "input.Error"
 	exclude   map[string]bool   // functions never pulled in automatically (only called on statically dead branches)
 	inout     map[string]string // function -> name of the map/pointer parameter (or receiver) it mutates; returned as an extra last result
 	effFns    map[string]string // function -> Lean type of one effect-log entry (its result becomes R × List entry)
@@ -411,7 +413,19 @@ func (f *g2lFn) zero(t types.Type, at ast.Node) string {
 // *binds as `let t ← …` lines evaluated before it (Go's left-to-right order).  Short-circuit operators whose
 // right operand has effects become an effectful conditional bound to a temporary.
 
-type binds struct{ lines []string }
+type binds struct {
+	lines   []string
+	rebound []string // variables re-bound by in-out calls evaluated in these lines (must escape a short-circuit operand)
+}
+
+func (b *binds) noteRebound(v string) {
+	for _, x := range b.rebound {
+		if x == v {
+			return
+		}
+	}
+	b.rebound = append(b.rebound, v)
+}
 
 func (b *binds) add(s string) { b.lines = append(b.lines, s) }
 
@@ -766,6 +780,26 @@ func (f *g2lFn) binary(b *binds, e *ast.BinaryExpr) string {
 				return "(" + x + " && " + y + ")"
 			}
 			return "(" + x + " || " + y + ")"
+		}
+		if len(rb.rebound) > 0 {
+			// the right operand calls an in-out method: the re-bound variables leave the conditional together with the value
+			f.pure = false
+			vars := strings.Join(rb.rebound, ", ")
+			inner := "(do\n" + indent(strings.Join(rb.lines, "\n")+"\npure ("+y+", "+vars+")", 2) + ")"
+			t := f.fresh("t")
+			skip := "false"
+			if e.Op == token.LOR {
+				skip = "true"
+			}
+			if e.Op == token.LAND {
+				b.add(fmt.Sprintf("let (%s, %s) ← (if %s then %s else pure (%s, %s))", t, vars, x, inner, skip, vars))
+			} else {
+				b.add(fmt.Sprintf("let (%s, %s) ← (if %s then pure (%s, %s) else %s)", t, vars, x, skip, vars, inner))
+			}
+			for _, v := range rb.rebound {
+				b.noteRebound(v)
+			}
+			return t
 		}
 		inner := "(do\n" + indent(strings.Join(rb.lines, "\n")+"\npure "+y, 2) + ")"
 		if e.Op == token.LAND {
